@@ -150,6 +150,8 @@ func checkC04(p *Program, r *Result) {
 	r.rule("C04.d", "every read option reaches the iterator", 6)
 	r.rule("C04.e", "topic filter is the same in both iterators", 2)
 	r.rule("C04.f", "cached Info is read-only", 1)
+	r.rule("C04.n", "a chunk index without message indexes is never dropped by the topic filter", 0)
+	checkKeepWithoutMessageIndexes(p, r, "C04.n")
 	r.rule("C04.g", "Finalize only copies deprecated companions into window fields", 1)
 	checkFinalizeStores(p, r)
 
@@ -190,6 +192,39 @@ func checkC04(p *Program, r *Result) {
 			r.undecided("C04.a", fname, "window predicate", p.pos(fd.Pos()), "no statement that yields a message found")
 			continue
 		}
+		// a condition on the log time may skip the current record, never end the walk: messages inside a chunk (and
+		// chunks inside a file) are not ordered by log time
+		isTarget := map[ast.Node]bool{}
+		for _, tg := range targets {
+			isTarget[tg] = true
+		}
+		ast.Inspect(fd.Body, func(n ast.Node) bool {
+			iff, ok := n.(*ast.IfStmt)
+			if !ok || !fc.form(iff.Cond).mentions(t) {
+				return true
+			}
+			for _, st := range iff.Body.List {
+				ends := ""
+				switch x := st.(type) {
+				case *ast.BranchStmt:
+					if x.Tok == token.BREAK {
+						ends = "break"
+					}
+				case *ast.ReturnStmt:
+					if !isTarget[x] && len(x.Results) > 0 {
+						last := types.ExprString(x.Results[len(x.Results)-1])
+						if last == "nil" || last == "io.EOF" {
+							ends = "return " + last
+						}
+					}
+				}
+				if ends != "" {
+					r.violated("C04.a", fname, "time condition ends the record walk", p.pos(st.Pos()),
+						"a condition on the message log time ("+fc.form(iff.Cond).String()+") leaves the record walk with `"+ends+"` instead of skipping the one record; records are not sorted by log time, so later records inside the window are lost")
+				}
+			}
+			return true
+		})
 		for _, tg := range targets {
 			pc, _ := pathCondition(fc, fd.Body.List, tg)
 			var kept []*bform
@@ -413,33 +448,87 @@ func checkReadOptions(p *Program, r *Result) {
 }
 
 // checkInfoReadOnly: no append/store whose destination slice originates from a field of the cached Info.
-func checkInfoReadOnly(p *Program, r *Result) {
+func checkInfoReadOnly(p *Program, r *Result) { checkInfoReadOnlyAs(p, r, "C04.f") }
+
+// checkInfoReadOnlyAs: no slice that belongs to the Reader's cached Info is modified in place - directly, or through an
+// iterator field that was assigned from a field of Info (append/copy into it, sort or reverse of it).
+func checkInfoReadOnlyAs(p *Program, r *Result, rule string) {
 	oc := &originCtx{p: p}
 	bad := 0
-	for _, fn := range sortedFuncs(readerScope(p)) {
+	fns := sortedFuncs(readerScope(p))
+	// iterator fields that may hold a slice of the cached Info
+	tainted := map[string]string{}
+	for _, fn := range fns {
+		if fn.Name() == "Info" {
+			continue
+		}
+		for _, in := range instrsOf(fn) {
+			st, ok := in.(*ssa.Store)
+			if !ok {
+				continue
+			}
+			tn, f, _, ok := fieldRef(st.Addr)
+			if !ok || !strings.HasSuffix(tn, "MessageIterator") {
+				continue
+			}
+			if _, isSlice := st.Val.Type().Underlying().(*types.Slice); !isSlice {
+				continue
+			}
+			for _, o := range oc.origins(st.Val) {
+				if strings.HasPrefix(o, "field:Info.") {
+					tainted["field:"+tn+"."+f] = o + " (assigned in " + funcName(fn) + ")"
+				}
+			}
+		}
+	}
+	isInfo := func(o string) (string, bool) {
+		if strings.HasPrefix(o, "field:Info.") {
+			return o, true
+		}
+		if via, ok := tainted[o]; ok {
+			return o + ", which aliases " + via, true
+		}
+		return "", false
+	}
+	for _, fn := range fns {
 		if fn.Name() == "Info" {
 			continue
 		}
 		for _, in := range instrsOf(fn) {
 			c, ok := in.(*ssa.Call)
-			if !ok {
+			if !ok || len(c.Call.Args) == 0 {
 				continue
 			}
-			b, isB := c.Call.Value.(*ssa.Builtin)
-			if !isB || (b.Name() != "append" && b.Name() != "copy") {
+			what := ""
+			if b, isB := c.Call.Value.(*ssa.Builtin); isB && (b.Name() == "append" || b.Name() == "copy") {
+				what = b.Name() + " into"
+			} else {
+				n := staticCalleeName(c.Common())
+				if f := c.Call.StaticCallee(); f != nil && f.Origin() != nil {
+					n = staticCalleeName2(f.Origin())
+				}
+				if stableSorts[n] || unstableSorts[n] || n == "slices.Reverse" {
+					what = trimPkg(n) + " of"
+				}
+			}
+			if what == "" {
 				continue
 			}
-			for _, o := range oc.origins(c.Call.Args[0]) {
-				if strings.HasPrefix(o, "field:Info.") {
+			dst := c.Call.Args[0]
+			if mi, ok := dst.(*ssa.MakeInterface); ok {
+				dst = mi.X
+			}
+			for _, o := range oc.origins(dst) {
+				if desc, yes := isInfo(o); yes {
 					bad++
-					r.violated("C04.f", funcName(fn), b.Name()+" into "+o, p.pos(c.Pos()),
-						"a slice taken from the Reader's cached Info is modified in place; a later read on the same Reader sees a corrupted chunk/attachment/metadata index list")
+					r.violated(rule, funcName(fn), what+" "+o, p.pos(c.Pos()),
+						"a slice taken from the Reader's cached Info is modified in place ("+desc+"); a later read on the same Reader, or another live iterator, sees a filtered or reordered chunk/attachment/metadata index list")
 				}
 			}
 		}
 	}
 	if bad == 0 {
-		r.held("C04.f", "mcap (reader side)", "no in-place update of cached Info slices", "", "no append/copy whose destination originates from a field of Info")
+		r.held(rule, "mcap (reader side)", "no in-place update of cached Info slices", "", "no append/copy/sort whose destination originates from a field of Info or from an iterator field assigned from one")
 	}
 }
 
